@@ -1,6 +1,327 @@
-//! `vh routes`: see /verif/docs/MODULE_CONTRACT.md
+//! `vh routes`: execute one presentation of a design through one entry point (C20).
+//!
+//! stdin: one JSON request per line
+//!   {"tag", "entry": "lib"|"cli", "src": path, "memory": bool, "out": path, "options": [names],
+//!    "fontc": path to the CLI binary (entry=cli), "timeout_ms": n}
+//! stdout: one JSON line per request
+//!   {"tag", "entry", "outcome": "ok"|"error"|"panic"|"timeout"|"signal", "message", "len", "hash",
+//!    "kind": Input variant chosen by `Input::new` / `from_glyphs` (lib only; internal observable),
+//!    "stamp": [name-id-5 strings of the produced font], "version": fontc::version() (lib only),
+//!    "argv": the CLI arguments used (cli only), "wall_ms"}
+//!
+//! entry=lib:  `Input::new(path)` (or `Input::from_glyphs(text)` when "memory") -> `create_source` ->
+//!             `fontc::generate_font(source, options)` where `options` starts from `Options::default()` the way a
+//!             library user would and only the named options are changed.
+//! entry=cli:  the `fontc` binary as a subprocess, the named options given as command line flags
+//!             (/repo/fontc/src/args.rs), always under a timeout.
+//! Nothing is compared here; the oracle is spec/Routes.tla (+ checks/c20.py).
+//!
+//! `vh routes --options` prints the option vocabulary with the CLI spelling of each name.
 
-pub fn run(_args: &[String]) -> i32 {
-    eprintln!("vh routes: not implemented yet");
-    2
+use std::{
+    io::{BufRead, Read, Write},
+    path::{Path, PathBuf},
+    process::{Command, Stdio},
+    time::{Duration, Instant},
+};
+
+use fontc::{Flags, Input, Options};
+use serde::{Deserialize, Serialize};
+use write_fonts::read::{FontRef, TableProvider};
+
+use crate::compile::{fnv1a, panic_message};
+
+#[derive(Debug, Default, Clone, Deserialize)]
+#[serde(default)]
+struct Req {
+    tag: String,
+    entry: String,
+    src: String,
+    memory: bool,
+    out: String,
+    options: Vec<String>,
+    fontc: String,
+    timeout_ms: u64,
+}
+
+#[derive(Debug, Default, Clone, Serialize)]
+struct Res {
+    tag: String,
+    entry: String,
+    outcome: String,
+    message: String,
+    len: usize,
+    hash: String,
+    kind: String,
+    stamp: Vec<String>,
+    version: String,
+    argv: Vec<String>,
+    wall_ms: u128,
+}
+
+/// The option vocabulary: name -> CLI arguments. The library side is `apply_lib`.
+const OPTIONS: &[(&str, &[&str])] = &[
+    ("flatten", &["--flatten-components"]),
+    ("no_flatten", &["--flatten-components=false"]),
+    ("erase_open_corners", &["--erase-open-corners"]),
+    ("no_erase_open_corners", &["--erase-open-corners=false"]),
+    ("propagate_anchors", &["--propagate-anchors"]),
+    ("no_propagate_anchors", &["--propagate-anchors=false"]),
+    ("no_prefer_simple", &["--prefer-simple-glyphs", "false"]),
+    ("decompose", &["--decompose-components"]),
+    ("decompose_transformed", &["--decompose-transformed-components"]),
+    ("keep_direction", &["--keep-direction"]),
+    ("no_production_names", &["--no-production-names"]),
+    ("skip_features", &["--skip-features"]),
+    ("debg", &["--emit-lookup-debug-info"]),
+];
+
+fn cli_args(name: &str) -> Option<&'static [&'static str]> {
+    OPTIONS.iter().find(|(n, _)| *n == name).map(|(_, a)| *a)
+}
+
+/// What a library user writes to get the same thing as the CLI flag.
+fn apply_lib(opts: &mut Options, disable: &mut Flags, name: &str) -> bool {
+    match name {
+        "flatten" => opts.flags |= Flags::FLATTEN_COMPONENTS,
+        "no_flatten" => *disable |= Flags::FLATTEN_COMPONENTS,
+        "erase_open_corners" => opts.flags |= Flags::ERASE_OPEN_CORNERS,
+        "no_erase_open_corners" => *disable |= Flags::ERASE_OPEN_CORNERS,
+        "propagate_anchors" => opts.flags |= Flags::PROPAGATE_ANCHORS,
+        "no_propagate_anchors" => *disable |= Flags::PROPAGATE_ANCHORS,
+        "no_prefer_simple" => opts.flags.remove(Flags::PREFER_SIMPLE_GLYPHS),
+        "decompose" => opts.flags |= Flags::DECOMPOSE_COMPONENTS,
+        "decompose_transformed" => opts.flags |= Flags::DECOMPOSE_TRANSFORMED_COMPONENTS,
+        "keep_direction" => opts.flags |= Flags::KEEP_DIRECTION,
+        "no_production_names" => opts.flags.remove(Flags::PRODUCTION_NAMES),
+        "skip_features" => opts.skip_features = true,
+        "debg" => opts.compile_debg = true,
+        _ => return false,
+    }
+    true
+}
+
+fn input_kind(input: &Input) -> &'static str {
+    match input {
+        Input::DesignSpacePath(_) => "DesignSpacePath",
+        Input::GlyphsPath(_) => "GlyphsPath",
+        Input::FontraPath(_) => "FontraPath",
+        Input::GlyphsMemory(_) => "GlyphsMemory",
+    }
+}
+
+/// name id 5 strings (where the compiler version is stamped), in table order
+fn stamps(bytes: &[u8]) -> Vec<String> {
+    let mut out = Vec::new();
+    if let Ok(font) = FontRef::new(bytes)
+        && let Ok(name) = font.name()
+    {
+        for r in name.name_record() {
+            if r.name_id().to_u16() == 5
+                && let Ok(s) = r.string(name.string_data())
+            {
+                out.push(s.chars().collect::<String>());
+            }
+        }
+    }
+    out
+}
+
+fn finish_ok(res: &mut Res, bytes: &[u8]) {
+    res.outcome = "ok".into();
+    res.len = bytes.len();
+    res.hash = fnv1a(bytes);
+    res.stamp = stamps(bytes);
+}
+
+fn run_lib(req: &Req, res: &mut Res) {
+    res.version = fontc::version();
+    let mut kind = String::new();
+    let result = std::panic::catch_unwind(std::panic::AssertUnwindSafe(|| {
+        let input = if req.memory {
+            let text = std::fs::read_to_string(&req.src).map_err(|e| format!("harness: {e}"))?;
+            Input::from_glyphs(text)
+        } else {
+            Input::new(Path::new(&req.src)).map_err(|e| e.to_string())?
+        };
+        kind = input_kind(&input).to_string();
+        let mut options = Options::default();
+        let mut disable = Flags::empty();
+        for o in &req.options {
+            if !apply_lib(&mut options, &mut disable, o) {
+                return Err(format!("harness: unknown option {o}"));
+            }
+        }
+        options.flags_to_disable = disable.into();
+        let source = input.create_source().map_err(|e| e.to_string())?;
+        fontc::generate_font(source, options).map_err(|e| e.to_string())
+    }));
+    res.kind = kind;
+    match result {
+        Ok(Ok(bytes)) => {
+            finish_ok(res, &bytes);
+            if !req.out.is_empty()
+                && let Err(e) = std::fs::write(&req.out, &bytes)
+            {
+                res.outcome = "harness".into();
+                res.message = format!("unable to write {}: {e}", req.out);
+            }
+        }
+        Ok(Err(e)) => {
+            res.outcome = if e.starts_with("harness: ") { "harness" } else { "error" }.into();
+            res.message = e;
+        }
+        Err(p) => {
+            res.outcome = "panic".into();
+            res.message = panic_message(p);
+        }
+    }
+}
+
+fn run_cli(req: &Req, res: &mut Res) {
+    let out = PathBuf::from(&req.out);
+    let _ = std::fs::remove_file(&out);
+    let build_dir = PathBuf::from(format!("{}.build", req.out));
+    let mut argv: Vec<String> = vec![
+        req.src.clone(),
+        "-o".into(),
+        req.out.clone(),
+        "--build-dir".into(),
+        build_dir.to_string_lossy().into_owned(),
+    ];
+    for o in &req.options {
+        match cli_args(o) {
+            Some(a) => argv.extend(a.iter().map(|s| s.to_string())),
+            None => {
+                res.outcome = "harness".into();
+                res.message = format!("unknown option {o}");
+                return;
+            }
+        }
+    }
+    res.argv = argv.clone();
+    let child = Command::new(&req.fontc)
+        .args(&argv)
+        .stdin(Stdio::null())
+        .stdout(Stdio::null())
+        .stderr(Stdio::piped())
+        .spawn();
+    let mut child = match child {
+        Ok(c) => c,
+        Err(e) => {
+            res.outcome = "harness".into();
+            res.message = format!("cannot run {}: {e}", req.fontc);
+            return;
+        }
+    };
+    // drain stderr on a thread so a chatty child cannot block on the pipe
+    let mut stderr = child.stderr.take().unwrap();
+    let reader = std::thread::spawn(move || {
+        let mut s = Vec::new();
+        let _ = stderr.read_to_end(&mut s);
+        String::from_utf8_lossy(&s).into_owned()
+    });
+    let deadline = Instant::now() + Duration::from_millis(if req.timeout_ms == 0 { 60_000 } else { req.timeout_ms });
+    let status = loop {
+        match child.try_wait() {
+            Ok(Some(st)) => break Some(st),
+            Ok(None) => {
+                if Instant::now() > deadline {
+                    let _ = child.kill();
+                    let _ = child.wait();
+                    break None;
+                }
+                std::thread::sleep(Duration::from_millis(2));
+            }
+            Err(e) => {
+                res.outcome = "harness".into();
+                res.message = format!("wait: {e}");
+                return;
+            }
+        }
+    };
+    let err = reader.join().unwrap_or_default();
+    let tail: String = {
+        let n = err.chars().count();
+        err.chars().skip(n.saturating_sub(600)).collect()
+    };
+    let _ = std::fs::remove_dir_all(&build_dir);
+    match status {
+        None => {
+            res.outcome = "timeout".into();
+            res.message = tail;
+        }
+        Some(st) if st.success() => match std::fs::read(&out) {
+            Ok(bytes) => {
+                finish_ok(res, &bytes);
+                res.message = tail;
+            }
+            Err(e) => {
+                res.outcome = "error".into();
+                res.message = format!("exit 0 but no output file: {e}; {tail}");
+            }
+        },
+        Some(st) => {
+            use std::os::unix::process::ExitStatusExt;
+            if let Some(sig) = st.signal() {
+                res.outcome = "signal".into();
+                res.message = format!("signal {sig}; {tail}");
+            } else if st.code() == Some(101) {
+                res.outcome = "panic".into();
+                res.message = tail;
+            } else {
+                res.outcome = "error".into();
+                res.message = format!("exit {:?}; {tail}", st.code());
+            }
+            let _ = std::fs::remove_file(&out);
+        }
+    }
+}
+
+pub fn run(args: &[String]) -> i32 {
+    if args.first().map(String::as_str) == Some("--options") {
+        let v: Vec<_> = OPTIONS
+            .iter()
+            .map(|(n, a)| serde_json::json!({"name": n, "cli": a}))
+            .collect();
+        println!("{}", serde_json::to_string(&v).unwrap());
+        return 0;
+    }
+    if std::env::var("VH_PANIC_VERBOSE").is_err() {
+        std::panic::set_hook(Box::new(|_| {}));
+    }
+    let stdin = std::io::stdin();
+    let stdout = std::io::stdout();
+    for line in stdin.lock().lines() {
+        let Ok(line) = line else { break };
+        if line.trim().is_empty() {
+            continue;
+        }
+        let req: Req = match serde_json::from_str(&line) {
+            Ok(r) => r,
+            Err(e) => {
+                eprintln!("bad request: {e}");
+                return 2;
+            }
+        };
+        let t0 = Instant::now();
+        let mut res = Res {
+            tag: req.tag.clone(),
+            entry: req.entry.clone(),
+            ..Default::default()
+        };
+        match req.entry.as_str() {
+            "lib" => run_lib(&req, &mut res),
+            "cli" => run_cli(&req, &mut res),
+            other => {
+                res.outcome = "harness".into();
+                res.message = format!("unknown entry {other}");
+            }
+        }
+        res.wall_ms = t0.elapsed().as_millis();
+        let mut out = stdout.lock();
+        let _ = writeln!(out, "{}", serde_json::to_string(&res).unwrap());
+        let _ = out.flush();
+    }
+    0
 }
